@@ -10,7 +10,8 @@
 (* constructed with the SAME salt and options:                             *)
 (*    anon   inst x y      anonymize(x) returned y                         *)
 (*    deanon inst x y      deanonymize(y) returned x                       *)
-(*    dump   inst pairs    dump_to_file wrote these <<original, image>>    *)
+(*    dump   inst pairs bad  dump_to_file wrote these <<original, image>>  *)
+(*                          (bad = lines not of the form addr TAB addr)    *)
 (*    exc    what          an exception escaped (never accepted)           *)
 (* flip is never logged: the pairs revealed so far (obs) must be           *)
 (* explainable by SOME admissible flip, which by PrefixMap!TraceLemma is   *)
@@ -42,10 +43,11 @@ PairVerdict(x, y, S, cl) ==
   ELSE IF "Consistent" \in cl /\ ~PairConsistent(x, y, S) THEN "Consistent"
   ELSE "ok"
 
-DumpVerdict(inst, P, cl) ==
+DumpVerdict(inst, P, bad, cl) ==
   LET PS_ == ToSet(P)
       mine == IF inst \in DOMAIN anonP THEN anonP[inst] ELSE {} IN
-  IF \E i, j \in 1..Len(P) : i < j /\ (P[i][1] = P[j][1] \/ P[i][2] = P[j][2]) THEN "DumpDuplicate"
+  IF bad # << >> THEN "DumpFormat"      \* a line that is not <address of this family> TAB <address of this family>
+  ELSE IF \E i, j \in 1..Len(P) : i < j /\ (P[i][1] = P[j][1] \/ P[i][2] = P[j][2]) THEN "DumpDuplicate"
   ELSE IF ~(mine \subseteq PS_) THEN "DumpMissing"
   ELSE IF \E p \in PS_ : PairVerdict(p[1], p[2], obs \cup PS_, cl) # "ok" THEN "DumpInconsistent"
   ELSE "ok"
@@ -79,7 +81,7 @@ StepPair(e) ==
        /\ UNCHANGED <<cfgvars, flip, keyed, skip, cls>>
 
 StepDump(e) ==
-  LET v == DumpVerdict(e.inst, e.pairs, cls) IN
+  LET v == DumpVerdict(e.inst, e.pairs, e.bad, cls) IN
   IF v # "ok" THEN Reject(e, v)
   ELSE /\ obs' = obs \cup ToSet(e.pairs)
        /\ UNCHANGED <<cfgvars, flip, keyed, anonP, skip, cls>>
